@@ -71,6 +71,23 @@ def run(ctx):
             ctx.fail("conforming-payload-rejected", inp, "%d attributes" % len(exp), "%s: %s" % (type(e).__name__, str(e)[:100]))
             continue
         got = [(k, v) for k, v in m.__dict__.items() if not k.startswith("_")]
+        if len(cases) < 4000 or hash(f) % 4 == 0:
+            # the same parse under an application's own numeric / warning settings: same attributes
+            import decimal
+            import warnings
+            try:
+                with decimal.localcontext() as dctx, warnings.catch_warnings(), impl.quiet():
+                    dctx.prec = 5
+                    dctx.rounding = decimal.ROUND_UP
+                    warnings.simplefilter("error")
+                    m_amb = UBXReader.parse(f, msgmode=mode, parsebitfield=bf)
+                amb = [(k, v) for k, v in m_amb.__dict__.items() if not k.startswith("_")]
+                if len(amb) != len(got) or any(a[0] != b[0] or not same(a[1], b[1]) for a, b in zip(amb, got)):
+                    ctx.fail("parse-depends-on-ambient-settings", inp, "same attributes under decimal prec=5 / warnings as errors",
+                             str([a for a, b in zip(amb, got) if a != b][:3])[:200])
+            except Exception as e:  # pylint: disable=broad-except
+                ctx.fail("parse-depends-on-ambient-settings", inp, "same attributes under decimal prec=5 / warnings as errors",
+                         "%s: %s" % (type(e).__name__, str(e)[:80]))
         if [k for k, _ in got] != [k for k, _ in exp]:
             if len(p) == 0:
                 ctx.failures.append({"what": "known:empty-payload", "input": inp, "expected": [k for k, _ in exp], "observed": []})
